@@ -133,7 +133,13 @@ func (vn *varIncr[T]) Node() *Node { return vn.n }
 func (vn *varIncr[T]) Value() T { return vn.value }
 
 func (vn *varIncr[T]) Stabilize(ctx context.Context) error {
-	if vn.setDuringStabilization {
+	// A value set during stabilization becomes the var's value when the pass ends (see
+	// Graph.stabilizeEnd), not when the var happens to be recomputed: a var that was still
+	// queued when a node function set it would otherwise take the value, and hand it to
+	// its dependents, in the middle of the very pass the set was deferred out of. The
+	// recompute cycle stamps recomputedAt with the running pass's number before it calls
+	// Stabilize, whereas stabilizeEnd applies deferred sets after that number has moved on.
+	if vn.setDuringStabilization && vn.n.recomputedAt != GraphForNode(vn).stabilizationNum {
 		var zero T
 		vn.value = vn.setDuringStabilizationValue
 		vn.setDuringStabilizationValue = zero
